@@ -64,12 +64,28 @@ class C11(Check):
         gen = mod.func(GEN)
         # ---- K1: stores into the definition table
         table = "functions"
+        # the table is created in the generator and handed down: per function, the local name(s) that denote it (fixpoint over call sites)
+        table_names: dict[str, set[str]] = {GEN: {table}}
+        sigs_ = {n: [a.arg for a in f.args.posonlyargs + f.args.args + f.args.kwonlyargs] for n, f in mod.functions.items() if "." not in n}
+        for _ in range(4):
+            for fname, fn in mod.functions.items():
+                if "." in fname or fname not in table_names:
+                    continue
+                for c in ast.walk(fn):
+                    if isinstance(c, ast.Call) and isinstance(c.func, ast.Name) and c.func.id in sigs_:
+                        ps = sigs_[c.func.id]
+                        for i, a in enumerate(c.args):
+                            if isinstance(a, ast.Name) and a.id in table_names[fname] and i < len(ps):
+                                table_names.setdefault(c.func.id, set()).add(ps[i])
+                        for k in c.keywords:
+                            if isinstance(k.value, ast.Name) and k.value.id in table_names[fname] and k.arg in ps:
+                                table_names.setdefault(c.func.id, set()).add(k.arg)
         stores = []
         for fname, fn in mod.functions.items():
             if "." in fname:
                 continue
             for s in walk_no_nested(fn):
-                if isinstance(s, ast.Assign) and isinstance(s.targets[0], ast.Subscript) and norm(s.targets[0].value) == table:
+                if isinstance(s, ast.Assign) and isinstance(s.targets[0], ast.Subscript) and norm(s.targets[0].value) in table_names.get(fname, {table} if fname == GEN else set()):
                     stores.append((fname, fn, s))
         if not stores:
             raise AnalysisError("no store into the definition table found")
@@ -77,6 +93,7 @@ class C11(Check):
         guard_calls: dict[str, set[str]] = {}
         for fname, fn, s in stores:
             key = s.targets[0].slice
+            tname_ = norm(s.targets[0].value)
             cons = f"store {table}[{norm(key)}]"
             # path summaries: at every store into the table, the path has decided a membership test of exactly the stored key
             out = SymInterp().run_function(fn, Sym())
@@ -85,9 +102,9 @@ class C11(Check):
             for stp in [x for x, _ in out.returns]:
                 decided = [c for c, _ in stp.conds]
                 for e in stp.events:
-                    if e[0] == "store" and e[1].startswith(f"{table}["):
-                        ktxt = e[1][len(table) + 1:-1]
-                        hits = [c for c in decided if f"{table}.get({ktxt})" in c or f"{ktxt} in {table}" in c or f"{ktxt} not in {table}" in c]
+                    if e[0] == "store" and e[1].startswith(f"{tname_}["):
+                        ktxt = e[1][len(tname_) + 1:-1]
+                        hits = [c for c in decided if f"{tname_}.get({ktxt})" in c or f"{ktxt} in {tname_}" in c or f"{ktxt} not in {tname_}" in c]
                         if hits:
                             guarded += 1
                             test_txt = hits[0]
